@@ -14,7 +14,7 @@ TITLE = 'NTv2 reader / interpolation / ntv2_2d'
 LEVEL = 'exploration'
 TECHNIQUE = ('runtime monitoring: I/O trace monitor (a file proxy injected as module-global `open` of the live '
              'geodepy.ntv2reader logs every seek/read) plus reference-model monitor (synthetic NTv2 files written from a '
-             'model with float32-exact polynomial fields; node addressing model; exact expected values)')
+             'model with float32-exact polynomial fields; node addressing model; exact expected values); the I/O trace names the mechanism of a wrong value, the values decide')
 RULE = ('each case = one synthetic NTv2 file (1..4 sub-grids in random file order: single, nested child/grandchild, disjoint '
         'and adjacent siblings, child touching the parent edge, two disjoint parents; 3..60 rows/cols; increments 30"..3600" '
         'from the standard list incl. 37.5/112.5 and random 0.001"/1e-6" multiples; extents at whole degrees, whole '
@@ -22,9 +22,11 @@ RULE = ('each case = one synthetic NTv2 file (1..4 sub-grids in random file orde
         'fields per sub-grid) read with read_ntv2_file and queried at positions on nodes, cell edges, interiors, the '
         'outermost and second ring of cells, +/-1e-9 deg of every extent edge and corner, exactly on edges, and outside; '
         'every position with both methods through interpolate_ntv2 and once through ntv2_2d (forward/reverse rotating). '
-        'Judged per call: metadata; the byte ranges read (from the I/O trace) = the 4/16 nodes around the query inside the '
-        'node block of the finest containing sub-grid; values against the exact blend / node value / polynomial truth with '
-        '1e-6 + 1e-6*(change across the cell); None + ValueError outside; sign and unit of the applied shifts. '
+        'Judged per call: metadata; values against the exact blend / node value / polynomial truth of the finest containing '
+        'sub-grid (every sub-grid has its own fields, so nodes taken from anywhere else show in the values) with '
+        '1e-6 + 1e-6*(change across the cell); None + ValueError outside; sign and unit of the applied shifts.  The byte ranges '
+        'read (I/O trace: the 4/16 nodes around the query inside one node block?) name the mechanism of a wrong value and are '
+        'counted as evidence otherwise. '
         'non-trivial = the call was judged on at least one clause; distinct = (layout, sub-grids, role of the serving '
         'sub-grid, query class, method, hemisphere, size class) buckets')
 ASSUMPTIONS = ['ntv2_synth writer/addressing model (validated per file: bytes at the arithmetically computed offsets decode '
@@ -472,9 +474,24 @@ class FileProxy:
         self.log.append(('read', p, n, len(b)))
         return b
 
+    def readinto(self, b):
+        p = self.pos
+        n = self.f.readinto(b)
+        self.pos = p + (n or 0)
+        self.log.append(('read', p, len(b), n or 0))
+        return n
+
     def close(self):
         self.log.append(('close',))
         return self.f.close()
+
+    def __iter__(self):
+        return iter(self.f)
+
+    def __getattr__(self, name):
+        # anything else a reader may legitimately use (fileno for mmap / numpy.fromfile, name, mode, readable ...) is the real
+        # file's; bytes fetched that way do not appear in the trace, which is evidence only
+        return getattr(self.f, name)
 
     def __enter__(self):
         return self
@@ -503,19 +520,23 @@ class Monitors:
             return FileProxy(builtins.open(path, mode, *a, **k), mon.log, path)
         R.open = opener
         self.reach = core.LineReach()
-        for fn, lab in ((R.interpolate_ntv2, 'interpolate_ntv2'), (R.read_ntv2_file, 'read_ntv2_file'),
-                        (R.SubGrid.ntv2_bilinear, 'ntv2_bilinear'), (R.SubGrid.ntv2_bicubic, 'ntv2_bicubic'),
-                        (R.bilinear_interpolation, 'bilinear_interpolation'), (R.bicubic_interpolation, 'bicubic_interpolation'),
-                        (self.T.ntv2_2d, 'ntv2_2d')):
-            self.reach.watch(fn, lab)
+        # reach evidence on the functions the anchors name; private helpers may be renamed or merged in another tree
+        for owner, name in ((R, 'interpolate_ntv2'), (R, 'read_ntv2_file'), (getattr(R, 'SubGrid', None), 'ntv2_bilinear'),
+                            (getattr(R, 'SubGrid', None), 'ntv2_bicubic'), (R, 'bilinear_interpolation'),
+                            (R, 'bicubic_interpolation'), (self.T, 'ntv2_2d')):
+            fn = getattr(owner, name, None)
+            if fn is not None and hasattr(fn, '__code__'):
+                self.reach.watch(fn, name)
+            else:
+                ctx.count('reach_target_absent:' + name)
         self.reach.start()
 
         def post(a, k, r, e):
             mon.last = (a, k, r, e)
         self.imon = ctx.monitor(R.interpolate_ntv2, 'interpolate_ntv2', post=post).attach()
-        if self.imon.bound < 2:
-            raise core.Inconclusive('interpolate_ntv2 monitor bound in %d namespaces (expected ntv2reader and transform)'
-                                    % self.imon.bound)
+        if self.imon.bound < 1:
+            raise core.Inconclusive('interpolate_ntv2 monitor bound in no namespace')
+        ctx.info['interpolate_ntv2_monitor_bound_in_namespaces'] = self.imon.bound
 
     def begin(self):
         del self.log[:]
@@ -699,7 +720,8 @@ class Session:
                     if q.get('cls') in ('probe', 'corner-probe'):
                         ctx.count('probe_outside_judged')
                 if reads:
-                    ctx.violation(via + 'io-trace:file-read-for-outside-query', case, {'reads': reads[:6]})
+                    # reading the file for a position no sub-grid serves is wasteful, not wrong: evidence only
+                    ctx.count('io_trace_note:file-read-for-outside-query')
             else:
                 ctx.violation(via + 'inclusion:inside-returned-none', case, detail0)
             self._bucket(q, method, 'none', loc)
@@ -712,26 +734,26 @@ class Session:
             viol('%s:malformed-result' % method, {'got': repr(res)})
             return
         # ---- I/O trace: which bytes were read -----------------------------------------------------------
+        # The trace is evidence: it names the sub-grid and the nodes an answer was computed from, and so the mechanism of a
+        # WRONG answer.  It is not a verdict of its own: a reader that loads a whole node block, or more nodes than the
+        # stencil, and still returns the right blend of the right nodes keeps the property (the statement is about what the
+        # values are computed from, not about which bytes are fetched).
         ctx.count('io_trace_judged')
         g_obs = None
-        trace_ok = True
+        trace_notes = []
         if outside or not blocks:
-            trace_ok = False
-            viol('io-trace:read-outside-node-block',
-                 {'reads_outside': outside[:6], 'node_blocks': [(lk['name'], lk['nodes'], lk['end']) for lk in self.lay]})
+            trace_notes.append(('io-trace:read-outside-node-block',
+                                {'reads_outside': outside[:6], 'node_blocks': [(lk['name'], lk['nodes'], lk['end']) for lk in self.lay]}))
         elif len(blocks) > 1:
-            trace_ok = False
-            viol('io-trace:read-from-several-subgrids', {'blocks': sorted(subs[k]['name'] for k in blocks)})
+            trace_notes.append(('io-trace:read-from-several-subgrids', {'blocks': sorted(subs[k]['name'] for k in blocks)}))
         else:
             g = next(iter(blocks))
             if g in acc:
                 g_obs = g
+            elif loc['status'][g] in ('in', 'edge'):
+                trace_notes.append(('overlap:coarser-subgrid-used', {'read_from': subs[g]['name']}))
             else:
-                trace_ok = False
-                if loc['status'][g] in ('in', 'edge'):
-                    viol('overlap:coarser-subgrid-used', {'read_from': subs[g]['name']})
-                else:
-                    viol('io-trace:read-from-subgrid-not-containing-query', {'read_from': subs[g]['name']})
+                trace_notes.append(('io-trace:read-from-subgrid-not-containing-query', {'read_from': subs[g]['name']}))
         if g_obs is not None:
             sg = subs[g_obs]
             fi, fj = nx.frac_index(sg, loc['LAT'], loc['LON'])
@@ -739,13 +761,12 @@ class Session:
             got_set = frozenset(n for (k, n) in nodes)
             full = all(m == 0xFFFF for m in nodes.values())
             if not full or got_set not in want_sets:
-                trace_ok = False
-                viol('io-trace:nodes-not-around-query',
-                     {'subgrid': sg['name'], 'index': [float(fi), float(fj)], 'ncols': sg['ncols'],
-                      'nodes_read_row_col': sorted(divmod(n, sg['ncols']) for n in got_set)[:16],
-                      'whole_nodes': full,
-                      'nodes_expected_row_col': [sorted(divmod(n, sg['ncols']) for n in s) for s in want_sets[:1]]})
-        if trace_ok:
+                trace_notes.append(('io-trace:nodes-not-around-query',
+                                    {'subgrid': sg['name'], 'index': [float(fi), float(fj)], 'ncols': sg['ncols'],
+                                     'nodes_read_row_col': sorted(divmod(n, sg['ncols']) for n in got_set)[:16],
+                                     'whole_nodes': full,
+                                     'nodes_expected_row_col': [sorted(divmod(n, sg['ncols']) for n in s) for s in want_sets[:1]]}))
+        if not trace_notes:
             ctx.count('io_trace_ok:' + method)
         # ---- overlap bookkeeping (keyed on the sub-grid that has to serve the query, whatever was observed) -----
         if loc['decisive'] and loc['finest_in'] is not None:
@@ -797,6 +818,11 @@ class Session:
                 continue
             seen.add(key)
             viol(key, dict(d, subgrid=sg['name'], index=best['index']))
+        for key, d in trace_notes:
+            if best['fails']:
+                viol(key, d)                       # the answer is wrong: the trace says where it came from
+            else:
+                ctx.count('io_trace_note:' + key.split(':', 1)[1])
         self._bucket(q, method, role + ('-ring' if ring else ''), loc)
 
     def _values(self, k, loc, method, res):
